@@ -31,7 +31,8 @@ Inductive val :=
 | VRange (b e : Z)
 | VTuple (id : N) (l : list val)
 | VVecRef (id : N)
-| VPrint.
+| VPrint
+| VClosure (id : N) (nm : name).   (* a closure of the function fragment (FnSem.v / FnVM.v): identity + the name shown *)
 
 Inductive err :=
 | TypeError (m : list byte)
@@ -140,6 +141,7 @@ Fixpoint veq (fuel : nat) (st : list (list val)) (a b : val) : bool :=
       | _, _ => false
       end
     | VPrint, VPrint => true
+    | VClosure i1 _, VClosure i2 _ => N.eqb i1 i2
     | _, _ => false
     end
   end.
@@ -187,6 +189,7 @@ Fixpoint display_aux (fuel : nat) (st : list (list val)) (vl tl : list N) (v : v
         | None => B "<dangling>"
         end
     | VPrint => B "<built-in fn print>"
+    | VClosure _ nm => B "<fn " ++ nm ++ B ">"     (* the address part " @ 0x.." is dropped *)
     end
   end.
 
